@@ -477,3 +477,57 @@ package resource_info
 //@   requires r != nil
 //@   fresh
 //@ end
+
+// ---- constructors / max (used by pod_info: C10 C19) ---------------------------------------------------------
+//@ func (*BaseResource).ScalarResources
+//@   props C10 C19 C01 C14
+//@   requires r != nil
+//@   inline
+//@ end
+
+//@ func EmptyResourceRequirements
+//@   props C10 C19 C14
+//@   fresh
+//@   ensures result.milliCpu == 0.0 && result.memory == 0.0 && result.count == 0 && result.portion == 0.0 && result.gpuMemory == 0
+//@   ensures fresh(result.scalarResources) && fresh(result.migResources) && fresh(result.draGpuCounts)
+//@   ensures (forall k v1.ResourceName :: !(k in result.scalarResources) && !(k in result.migResources)) && (forall k string :: !(k in result.draGpuCounts))
+//@ end
+
+//@ func RequirementsFromResourceList
+//@   props C10 C19
+//@   trusted
+//@   note folds a v1.ResourceList through k8s resource.Quantity accessors (Value/MilliValue: external, havoc-all in the engine); assumed: touches no existing object, returns a new requirement with its three maps allocated; content unconstrained
+//@   fresh
+//@   ensures fresh(result.scalarResources) && fresh(result.migResources) && fresh(result.draGpuCounts)
+//@ end
+
+//@ func (*BaseResource).SetMaxResource
+//@   props C10 C19 C14
+//@   requires r != nil && rr != nil ==> r.scalarResources != rr.scalarResources || r.scalarResources == nil
+//@   modifies r.milliCpu, r.memory, r.scalarResources, r.scalarResources[*]
+//@   loop 1
+//@     invariant r != nil && rr != nil && r.scalarResources != nil && (old(r.scalarResources) != nil ==> r.scalarResources == old(r.scalarResources)) && (old(r.scalarResources) == nil ==> fresh(r.scalarResources))
+//@     invariant forall k in visited :: k in rr.scalarResources
+//@     invariant forall k in visited :: k in r.scalarResources && r.scalarResources[k] == ite(old(k in r.scalarResources) && old(r.scalarResources[k]) >= rr.scalarResources[k], old(r.scalarResources[k]), rr.scalarResources[k])
+//@     invariant forall k v1.ResourceName :: !(k in visited) ==> r.scalarResources[k] == old(r.scalarResources[k]) && (k in r.scalarResources <==> old(k in r.scalarResources))
+//@   ensures r != nil && rr != nil ==> r.milliCpu == max(old(r.milliCpu), rr.milliCpu) && r.memory == max(old(r.memory), rr.memory) && r.scalarResources != nil
+//@   ensures r != nil && rr != nil ==> forall k v1.ResourceName :: (k in r.scalarResources <==> old(k in r.scalarResources) || k in rr.scalarResources) && r.scalarResources[k] == ite(k in rr.scalarResources && !(old(k in r.scalarResources) && old(r.scalarResources[k]) >= rr.scalarResources[k]), rr.scalarResources[k], old(r.scalarResources[k]))
+//@ end
+
+// frame-only: the maximum of two GPU requirements (errors for different fractional portions)
+//@ func (*GpuResourceRequirement).SetMaxResource
+//@   props C10 C19
+//@   requires g != nil && gg != nil && g.draGpuCounts != nil && g.migResources != nil && g.draGpuCounts != gg.draGpuCounts && g.migResources != gg.migResources
+//@   modifies g.count, g.portion, g.draGpuCounts[*], g.migResources[*], draSum(g.draGpuCounts)
+//@   loop 1
+//@     invariant true
+//@   loop 2
+//@     invariant true
+//@ end
+
+//@ func (*ResourceRequirements).SetMaxResource
+//@   props C10 C19
+//@   requires r != nil && rr != nil ==> r.draGpuCounts != nil && r.migResources != nil && r.draGpuCounts != rr.draGpuCounts && r.migResources != rr.migResources && (r.scalarResources != rr.scalarResources || r.scalarResources == nil)
+//@   modifies r.milliCpu, r.memory, r.scalarResources, r.scalarResources[*], r.count, r.portion, r.draGpuCounts[*], r.migResources[*], draSum(r.draGpuCounts)
+//@   ensures r != nil && rr != nil ==> r.milliCpu == max(old(r.milliCpu), rr.milliCpu) && r.memory == max(old(r.memory), rr.memory) && r.scalarResources != nil
+//@ end
